@@ -31,6 +31,7 @@ ASSUMPTIONS = [
 BOUND = {"quick": "A: parse family quick; B: depth <= 2 complete (8+64 histories) + depth 3 from non-pristine fingerprints", "thorough": "A: parse family thorough; B: depth <= 3 complete (584 histories)"}
 FLOOR = {"quick": 15000, "thorough": 80000}
 CHUNK = 2
+TIMEOUT = 900  # per case; fresh child processes are slow when the machine is loaded
 
 FILES = [
     ("ansi", None, "SELECT a, b FROM t WHERE a = 1\n"),
